@@ -12,6 +12,9 @@ from scipy.linalg import lu
 from scipy.linalg import solve_triangular
 
 
+from . import _verif
+
+
 def maxvol(A, e=1.05, k=100):
     """Compute the maximal-volume submatrix for given tall matrix.
 
@@ -49,18 +52,28 @@ def maxvol(A, e=1.05, k=100):
     B = solve_triangular(L[:r, :], Q, trans=1, check_finite=False,
         unit_diagonal=True, lower=True).T
 
+    if _verif.ON:
+        _verif.emit('mv_init', A=A, I=I.tolist(), e=float(e), k=int(k))
+
     for _ in range(k):
         i, j = np.divmod(np.abs(B).argmax(), r)
+        if _verif.ON and np.abs(B[i, j]) <= e:
+            _verif.emit('mv_conv', i=int(i), j=int(j), b=float(np.abs(B[i, j])))
         if np.abs(B[i, j]) <= e:
             break
 
         I[j] = i
+        if _verif.ON:
+            _verif.emit('mv_swap', i=int(i), j=int(j), b=float(np.abs(B[i, j])))
 
         bj = B[:, j]
         bi = B[i, :].copy()
         bi[j] -= 1.
 
         B -= np.outer(bj, bi / B[i, j])
+
+    if _verif.ON:
+        _verif.emit('mv_ret', I=I.tolist(), B=B)
 
     return I, B
 
@@ -117,14 +130,22 @@ def maxvol_rect(A, e=1.1, dr_min=0, dr_max=None, e0=1.05, k0=10):
     S[I0] = 0
     F = S * np.linalg.norm(B, axis=1)**2
 
+    if _verif.ON:
+        _verif.emit('mr_init', A=A, I0=I0.tolist(), e=float(e), r_min=int(r_min),
+            r_max=int(r_max))
+
     for k in range(r, r_max):
         i = np.argmax(np.where(S > 0, F, -1.))
 
+        if _verif.ON and k >= r_min and F[i] <= e*e:
+            _verif.emit('mr_stop', k=int(k), i=int(i), f=float(F[i]))
         if k >= r_min and F[i] <= e*e:
             break
 
         I[k] = i
         S[i] = 0
+        if _verif.ON:
+            _verif.emit('mr_add', k=int(k), i=int(i), f=float(F[i]))
 
         v = B.dot(B[i])
         l = 1. / (1 + v[i])
@@ -133,5 +154,8 @@ def maxvol_rect(A, e=1.1, dr_min=0, dr_max=None, e0=1.05, k0=10):
 
     I = I[:B.shape[1]]
     B[I] = np.eye(B.shape[1], dtype=B.dtype)
+
+    if _verif.ON:
+        _verif.emit('mr_ret', I=I.tolist(), B=B)
 
     return I, B
